@@ -40,8 +40,10 @@ structure EFam where
   need : σ → Nat → Nat
   /-- free bytes the end-of-stream block asks for -/
   eofNeed : σ → Nat
-  rank : σ → Nat
-  unread_rank : ∀ s c, (step s c).unread = true → rank (step s c).st < rank s
+  /-- termination measure of the re-read loop on one character (it may depend on the character:
+  ISO-2022-JP switches Ascii → Roman for U+00A5 and Roman → Ascii for U+005C) -/
+  rank : σ → Nat → Nat
+  unread_rank : ∀ s c, (step s c).unread = true → rank (step s c).st c < rank s c
 
 /-- `EncoderResult` -/
 inductive ERes | inputEmpty | outputFull | unmappable (c : Nat)
